@@ -180,6 +180,21 @@ def c14_scenarios(scripts, seed, quick, call, scn):
         s2 = scn("c14-refused-%d" % k, steps, seed=seed + k)
         s2["meta"]["proj"][TP] = "p2"
         finish(s2)
+    # a push subscription that outlives its topic is deleted, and its name is used again (as a pull
+    # subscription, or with push): nothing of the first incarnation's registration survives
+    for k in range(2 if quick else 6):
+        steps = [{"do": "endpoint", "script": {}, "default": [200]},
+                 call(1, op="CreateTopic", name=T1), call(1, op="CreateSub", name=S1, topic=T1, ack=10, push="$EP"),
+                 call(1, op="Publish", topic=T1, msgs=[{"p": "pa"}]), {"do": "waithttp", "n": 1, "ms": 4000},
+                 call(1, op="DeleteTopic", name=T1), {"do": "advance", "ms": 60},
+                 call(1, op="DeleteSub", name=S1), {"do": "advance", "ms": 60},
+                 call(1, op="CreateTopic", name=T1 if k % 2 else "projects/p1/topics/t2")]
+        topic2 = T1 if k % 2 else "projects/p1/topics/t2"
+        steps += [call(1, op="CreateSub", name=S1, topic=topic2, ack=10, **({"push": "$EP"} if k % 3 == 2 else {})),
+                  call(1, op="Publish", topic=topic2, msgs=[{"p": "pb"}]),
+                  {"do": "advance", "ms": 250},
+                  call(2, op="Pull", sub=S1, max=10, ri=True)]
+        finish(scn("c14-orphan-del-%d" % k, steps, seed=seed + k), push=(k % 3 == 2))
     # an endpoint on which nothing listens, and an unsupported endpoint
     steps = [{"do": "endpoint", "script": {}, "default": [200]},
              call(1, op="CreateTopic", name=T1), call(1, op="CreateSub", name=S1, topic=T1, ack=10, push="$DEAD"),
